@@ -95,6 +95,17 @@ def kids_in_sets(ctx, pop):
                 ctx.report(f"building a key set ({mode}, {how}) failed: {err_name(e)}", {"kids": given}, f"kid:set:{mode}:failed")
                 continue
             ctx.count("kids-in-sets", (mode, how, repr(given), tuple(type(k).__name__ for k in chosen)), True, f"{mode}:{how}")
+            if how == "constructor" and ctx.driver_ok:
+                # the model's KeySet.__init__ (keySetInit, subject of c13_keyset_kids) on the same members
+                try:
+                    ln = "key.setinit " + " ".join(J.enc_key(cls.import_key(dict(d))) for cls, d in members)
+                    m_ans = model_eval([ln])[0]
+                    impl_ans = [dict(k.dict_value) for k in ks.keys]
+                    mo = wire.dec_jval(m_ans[3:]) if m_ans.startswith("ok ") else m_ans
+                    if mo != impl_ans:
+                        ctx.disagreements.append({"suite": "key.setinit", "request": ln[:300], "model": repr(mo)[:400], "impl": repr(impl_ans)[:400]})
+                except wire.Unencodable:
+                    pass
             got = [k.kid for k in ks.keys]
             exported = [e.get("kid") for e in ks.as_dict(private=False)["keys"]] if all(k.key_type != "oct" for k in ks.keys) else got
             for g, have, exp, k in zip(given, got, exported, ks.keys):
